@@ -1,6 +1,6 @@
 /-
-Expected source text of the functions that `NGF.Model.StatusPrep` mirrors (hand-pinned copy; the theorems
-`facts_*_body` of `NGF.Props.C07` compare the text regenerated from /repo on every run with these).
+Expected source text of the functions that `NGF.Model.StatusPrep` / `NGF.Model.HandlerStatus` mirror (hand-pinned copy; the
+theorems `facts_*` of `NGF.Props.C07` compare the text regenerated from /repo on every run with these).
 -/
 namespace NGF.StatusPrep.Expected
 
@@ -59,5 +59,25 @@ def reloadErrorBranches : List String :=
 def prepareRouteStatusCalls : List String :=
   ["prepareRouteStatus( gatewayCtlrName, r.ParentRefs, r.Conditions, nginxReloadRes, transitionTime, r.Source.GetGeneration(), )",
    "prepareRouteStatus( gatewayCtlrName, r.ParentRefs, r.Conditions, nginxReloadRes, transitionTime, r.Source.GetGeneration(), )"]
+
+def handleEventBatchBody : List String :=
+  ["start := time.Now()",
+   "logger.V(1).Info(\"Started processing event batch\")",
+   "defer func() { duration := time.Since(start) logger.V(1).Info( \"Finished processing event batch\", \"duration\", duration.String(), ) h.cfg.metricsCollector.ObserveLastEventBatchProcessTime(duration) }()",
+   "for _, event := range batch { h.parseAndCaptureEvent(ctx, logger, event) }",
+   "changeType, gr := h.cfg.processor.Process()",
+   "var err error",
+   "switch changeType { case state.NoChange: logger.Info(\"Handling events didn't result into NGINX configuration changes\") if !h.cfg.nginxConfiguredOnStartChecker.ready && h.cfg.nginxConfiguredOnStartChecker.firstBatchError == nil { h.cfg.nginxConfiguredOnStartChecker.setAsReady() } return case state.EndpointsOnlyChange: h.version++ cfg := dataplane.BuildConfiguration(ctx, gr, h.cfg.serviceResolver, h.version) depCtx, getErr := h.getDeploymentContext(ctx) if getErr != nil { logger.Error(getErr, \"error getting deployment context for usage reporting\") } cfg.DeploymentContext = depCtx h.setLatestConfiguration(&cfg) if h.cfg.plus { err = h.updateUpstreamServers(cfg) } else { err = h.updateNginxConf(ctx, cfg) } case state.ClusterStateChange: h.version++ cfg := dataplane.BuildConfiguration(ctx, gr, h.cfg.serviceResolver, h.version) depCtx, getErr := h.getDeploymentContext(ctx) if getErr != nil { logger.Error(getErr, \"error getting deployment context for usage reporting\") } cfg.DeploymentContext = depCtx h.setLatestConfiguration(&cfg) err = h.updateNginxConf(ctx, cfg) }",
+   "var nginxReloadRes status.NginxReloadResult",
+   "if err != nil { logger.Error(err, \"Failed to update NGINX configuration\") nginxReloadRes.Error = err if !h.cfg.nginxConfiguredOnStartChecker.ready { h.cfg.nginxConfiguredOnStartChecker.firstBatchError = err } } else { logger.Info(\"NGINX configuration was successfully updated\") if !h.cfg.nginxConfiguredOnStartChecker.ready { h.cfg.nginxConfiguredOnStartChecker.setAsReady() } }",
+   "h.latestReloadResult = nginxReloadRes",
+   "h.updateStatuses(ctx, logger, gr)"]
+
+def updateNginxConfBody : List String :=
+  ["files := h.cfg.generator.Generate(conf)",
+   "if err := h.cfg.nginxFileMgr.ReplaceFiles(files); err != nil { return fmt.Errorf(\"failed to replace NGINX configuration files: %w\", err) }",
+   "if err := h.cfg.nginxRuntimeMgr.Reload(ctx, conf.Version); err != nil { return fmt.Errorf(\"failed to reload NGINX: %w\", err) }",
+   "if err := h.updateUpstreamServers(conf); err != nil { return fmt.Errorf(\"failed to update upstream servers: %w\", err) }",
+   "return nil"]
 
 end NGF.StatusPrep.Expected
